@@ -1,8 +1,9 @@
 ------------------------------ MODULE LoginSpec ------------------------------
 (* The C08 contract as an executable specification.  A server reply script is a sequence of       *)
 (* abstract packages [t |-> type, a |-> attribute] with "eom" marking the end of a server message:  *)
-(*   ack: succeed / fail / negotiate        msg: enc4 / enc3 / other       fmt: 3ok / 2 / 4 / badtype *)
-(*   params: good / notpem / notpkcs1 / trailing / emptykey (key of length 0) /                       *)
+(*   ack: succeed / fail / negotiate        msg: enc4 / enc3 / other                                  *)
+(*   fmt: 3ok / 2 / 4 (columns) / badtype (cipher suite not INT4) / vbnonce (nonce VARBINARY)         *)
+(*   params: good / notpem / notpkcs1 / trailing / emptykey (key of length 0) / wskey (white space and NUL only) /                       *)
 (*           cipher2 / cipher3 / cipher257 / cipherneg                                                 *)
 (*           (cipher suite 2, 3, 257, -1 instead of 1)                      done: final / more         *)
 (*   caps: normal / subset (another non-zero answer) / zero (all-zero masks) / emptyres, emptyreq      *)
@@ -21,8 +22,8 @@ ValidEnc == <<P("ack", "negotiate"), P("msg", "enc4"), P("fmt", "3ok"), P("param
               P("eom", "x"), P("ack", "succeed"), P("caps", "normal"), P("done", "final"), P("eom", "x")>>
 Attrs(t) == CASE t = "ack" -> {"succeed", "fail", "negotiate"}
               [] t = "msg" -> {"enc4", "enc3", "other"}
-              [] t = "fmt" -> {"3ok", "2", "4", "badtype"}
-              [] t = "params" -> {"good", "notpem", "notpkcs1", "trailing", "emptykey", "cipher2", "cipher3", "cipher257", "cipherneg"}
+              [] t = "fmt" -> {"3ok", "2", "4", "badtype", "vbnonce"}
+              [] t = "params" -> {"good", "notpem", "notpkcs1", "trailing", "emptykey", "wskey", "cipher2", "cipher3", "cipher257", "cipherneg"}
               [] t = "done" -> {"final", "more"}
               [] t = "caps" -> {"normal", "subset", "zero", "emptyres", "emptyreq"}
               [] t = "eed" -> {"info", "err"}
